@@ -92,6 +92,17 @@ def run_case(case):
                 # zone-aware datetimes, as load() produces them for a format with %z
                 fd['format'] = '%Y-%m-%dT%H:%M:%S%z'
                 cov['config']['datetime_format_with_utc_offset'] = 1
+        rng_l = boot.rng(case['seed'], 'C03', 'lexical_props', case['idx'], r)
+        for fd in fields:
+            if fd['type'] == 'number' and rng_l.random() < 0.25:
+                # the source declares how ITS text spelled numbers; the dump declares how the written text spells them
+                lex = rng_l.choice([{'groupChar': '.', 'decimalChar': ','}, {'groupChar': ','}, {'bareNumber': False},
+                                    {'decimalChar': ','}, {'groupChar': ' ', 'bareNumber': False}])
+                fd.update(lex)
+                cov['config']['number_field_declares/' + '+'.join(sorted(lex))] = 1
+            elif fd['type'] == 'integer' and rng_l.random() < 0.1:
+                fd['bareNumber'] = False
+                cov['config']['integer_field_declares/bareNumber'] = 1
         long_cell = rng_x.random() < 0.04 and any(fd['type'] == 'string' for fd in fields)
         pk = None
         if rng.random() < 0.4:
@@ -153,6 +164,8 @@ def run_case(case):
                     fd['constraints'] = {'minimum': '01/01/0001', 'maximum': '31/12/9999'}
                 elif fd['type'] == 'datetime':
                     fd['constraints'] = {'maximum': '9999-12-31T23:59:59Z'}
+                elif fd.get('bareNumber') is False:
+                    continue        # (a textual '-5' is read as 5 under bareNumber=false: no negative bounds as text)
                 elif fd['type'] == 'number' and all(v == v and abs(v) != decimal.Decimal('Infinity') for v in vals):
                     fd['decimalChar'] = ','
                     fd['constraints'] = {'minimum': '-100000000000000000000,5'}
